@@ -23,7 +23,11 @@ RULE = (
     "methods x add_self, UNORDERED/RANDOM (tree), visit() x {pre,post,level} x add_self x every node as "
     "skip/stop position x every signal form are evaluated against reference orders computed from "
     "node.children by different algorithms. Non-trivial: branch has >= 4 nodes and depth >= 3 "
-    "(zigzag/rtl/level skip differ from simpler orders); distinct = distinct (forest, start)."
+    "(zigzag/rtl/level skip differ from simpler orders); distinct = distinct (forest, start). Further parts: "
+    "forests over a 4-letter alphabet (clones and equal data on one level, plain and typed trees), and "
+    "query-mutate-query histories: the same clauses are evaluated on ONE tree before a generated mutation history "
+    "(adds, copies, moves, removals, sorting, re-keying, refused calls), after a generated subset of its steps and "
+    "at its end (non-trivial there: >= 2 evaluations and >= 2 operations)."
 )
 ASSUMPTIONS = [
     "reference orders are computed from Tree.children/Node.children (trusted accessors)",
@@ -110,7 +114,7 @@ def ids(nodes):
 
 
 def names(nodes):
-    return [n.data for n in nodes]
+    return [repr(n.data) for n in nodes]
 
 
 # signal forms: (name, kind, how, carried value)
@@ -137,17 +141,40 @@ STOP_FORMS = [
 
 def run(case, rec):
     spec, start_i = case["spec"], case["start"]
-    tree, nodes = build(spec)
-    w = walk(tree)
-    kids = w.kids
+    tree, nodes = build(spec, typed=bool(case.get("typed")))
     is_tree = start_i < 0 or not nodes
     start = None if is_tree else nodes[start_i % len(nodes)]
+    if case.get("typed"):
+        rec.cls("typed")
+    if gen.spec_has_clone(spec):
+        rec.cls("clones")
+    check_at(tree, start, rec, nt=True)
+
+
+def pick_start(tree, w, start_i):
+    """start_i < 0: the tree itself, else the start_i-th node in (reference) pre-order."""
+    if start_i < 0 or not w.pre:
+        return None
+    return w.pre[start_i % len(w.pre)]
+
+
+def check_at(tree, start, rec, nt=False):
+    """All traversal clauses for one start (None = the tree) of an existing tree."""
+    w = walk(tree)
+    kids = w.kids
+    is_tree = start is None
     roots = kids[id(None)] if is_tree else kids[id(start)]
     branch_pre = ref_pre(kids, roots)
     depth = len(ref_levels(kids, roots))
-    rec.nt(len(branch_pre) >= 4 and depth >= 3)
+    if nt:
+        rec.nt(len(branch_pre) >= 4 and depth >= 3)
     rec.cls(f"depth={min(depth, 6)}")
     rec.cls("start=tree" if is_tree else "start=node")
+    # nodes of one level that are equal (==) without being identical: clones or equal data
+    for lv in ref_levels(kids, roots):
+        if any(a is not b and a == b and kids[id(b)] for i, a in enumerate(lv) for b in lv[i + 1:]):
+            rec.cls("equal-nodes-on-one-level(one with children)")
+            break
     ev = 0
 
     # ---- iterators --------------------------------------------------------------
@@ -241,7 +268,7 @@ def run(case, rec):
                     if ids(calls) != ids(exp[: pos + 1]):
                         rec.fail(
                             f"visit:{m.value}:stop:calls",
-                            {"form": fname, "at": x.data, "got": names(calls), "exp": names(exp[: pos + 1]), "add_self": add_self},
+                            {"form": fname, "at": repr(x.data), "got": names(calls), "exp": names(exp[: pos + 1]), "add_self": add_self},
                         )
                     if r != val or (val is None and r is not None):
                         rec.fail(f"visit:{m.value}:stop:value", {"form": fname, "got": repr(r), "exp": repr(val)})
@@ -266,7 +293,7 @@ def run(case, rec):
                     if ids(calls) != ids(exp_skip):
                         rec.fail(
                             f"visit:{m.value}:skip",
-                            {"form": fname, "at": x.data, "got": names(calls), "exp": names(exp_skip), "add_self": add_self},
+                            {"form": fname, "at": repr(x.data), "got": names(calls), "exp": names(exp_skip), "add_self": add_self},
                         )
                     if r is not None:
                         rec.fail(f"visit:{m.value}:skip:return", repr(r))
@@ -296,7 +323,50 @@ def hyp_cases(draw, tier):
     return {"spec": spec, "start": draw(st.integers(-1, max(0, n - 1)))}
 
 
+@st.composite
+def clone_cases(draw, tier):
+    """Small alphabet: the same data under several parents (clones), also on one level, typed or plain."""
+    typed = draw(st.booleans())
+    spec = draw(gen.forest_specs(max_nodes=12, max_depth=4, max_width=4, alphabet=["a", "b", "c", "d"], min_nodes=4,
+                                 opts=gen.node_opts(explicit_ids=False, kinds=typed)))
+    n = gen.spec_nodes(spec)
+    return {"spec": spec, "typed": typed, "start": draw(st.integers(-1, max(0, n - 1)))}
+
+
+def run_requery(case, rec):
+    """Traverse, mutate (also through refused calls), traverse the same tree again."""
+    from vlib import requery
+
+    def check(tree, rec, eng):
+        w = walk(tree)
+        check_at(tree, None, rec)
+        if not rec.failed and w.pre and case["start"] >= 0:
+            check_at(tree, pick_start(tree, w, case["start"]), rec)
+        # random access is part of the same clause ("a permutation of the same nodes")
+        if not rec.failed and w.pre:
+            for _ in range(3):
+                rn = tree.get_random_node()
+                rec.evals += 1
+                if not any(rn is n for n in w.pre):
+                    rec.fail("get_random_node:not-in-tree", repr(rn))
+                    break
+
+    q = requery.run(case, rec, check)
+    rec.nt(bool(q and q >= 2 and len(case["ops"]) >= 2))
+
+
+@st.composite
+def requery_cases(draw, tier):
+    from vlib import requery
+
+    case = draw(requery.cases(max_ops=8, max_nodes=9))
+    case["start"] = draw(st.integers(-1, 8))
+    return case
+
+
 PARTS = [
     Part("exhaustive", run, enum=enum_cases),
     Part("random-deep-wide", run, strategy=lambda tier: hyp_cases(tier), n={"quick": 100, "thorough": 20000}),
+    Part("clones-typed", run, strategy=lambda tier: clone_cases(tier), n={"quick": 300, "thorough": 20000}),
+    Part("query-mutate-query", run_requery, strategy=lambda tier: requery_cases(tier), n={"quick": 300, "thorough": 20000}),
 ]
